@@ -771,10 +771,46 @@ func (f *transformationCallable) updateEntries(item reflect.Value) error {
 	updates = jtypes.Resolve(updates)
 
 	for _, key := range updates.MapKeys() {
-		item.SetMapIndex(key, updates.MapIndex(key))
+
+		value := updates.MapIndex(key)
+
+		// A value that contains the matched object (e.g. $) is
+		// stored as a copy of its current value. Storing the
+		// reference would make the object contain itself.
+		if containsMap(value, item.Pointer()) {
+			if value, err = f.clone(jtypes.Resolve(value)); err != nil {
+				return newEvalError(ErrClone, nil, nil)
+			}
+		}
+
+		item.SetMapIndex(key, value)
 	}
 
 	return nil
+}
+
+// containsMap reports whether the map with the given identity
+// is v or is reachable from v.
+func containsMap(v reflect.Value, target uintptr) bool {
+	v = jtypes.Resolve(v)
+	switch {
+	case jtypes.IsMap(v):
+		if v.Pointer() == target {
+			return true
+		}
+		for _, k := range v.MapKeys() {
+			if containsMap(v.MapIndex(k), target) {
+				return true
+			}
+		}
+	case jtypes.IsArray(v):
+		for i := 0; i < v.Len(); i++ {
+			if containsMap(v.Index(i), target) {
+				return true
+			}
+		}
+	}
+	return false
 }
 
 func (f *transformationCallable) deleteEntries(item reflect.Value) error {
